@@ -11,6 +11,7 @@ from vf.simk.world import World, FD
 
 ID = "C14"
 LEVEL = "exploration"
+ALT_MOUNT = True          # run once more with procfs mounted at /hostproc (vf/child.py)
 KINDS = ["reg", "del", "delx", "litdel", "sock", "pipe", "anon", "anon2", "chr", "rel", "dir"]
 FLAGBITS = [os.O_APPEND, os.O_CREAT, os.O_TRUNC, os.O_CLOEXEC, os.O_NONBLOCK, 0o100000]
 POS = [0, 1, 2 ** 31 - 1, 2 ** 31, 2 ** 32, 2 ** 63 - 1]
